@@ -69,6 +69,8 @@ def run(repo, rep):
     _memo_rule(repo, rep, 'C09', 'C09.Z1')
     from ..pitfalls import log_rule as _log_rule
     _log_rule(repo, rep, 'C09', 'C09.Z2')
+    from ..api_pitfalls import truth_rule as _truth_rule
+    _truth_rule(repo, rep, 'C09', 'C09.Z4')
     hier = exc_hierarchy(repo)
     acc = repo.cls('asceprovider', 'AssociationAcceptor')
     f = acc.find_method('accept')
